@@ -149,6 +149,17 @@ def handle (args : List String) : Verdict :=
   | "gstream" :: r => handleGstream r
   | "legacy" :: r => handleLegacy true r
   | "legacyfix" :: r => handleLegacy false r
+  | "legacynorm" :: scale :: mnm :: mne :: mxm :: mxe :: ns :: cs :: rest =>
+    -- normalisation of the legacy class with the bond / angle scalings: sum times interval is one
+    match parseRat2 mnm mne, parseRat2 mxm mxe, ns.toNat?, takeRats (ns.toNat?.getD 0) rest with
+    | some mn, some mx, some n, some (pdf, []) =>
+      let interval := (mx - mn) / ((n : Rat) - 1)
+      let integral := pdf.sum * interval
+      let allZero := pdf.all (· == 0)
+      let ok := allZero || absRat (integral - 1) ≤ 1 / 10 ^ 9
+      { agree := ok, propOk := ok, tag := s!"legacy-normalise-{scale}-{if cs.toNat?.getD 0 ≥ 2000 then "many" else "few"}",
+        msg := s!"LEGACY-NORMALISE scale {scale}: the integral of the normalised histogram is {Float.ofInt integral.num / Float.ofNat integral.den}" }
+    | _, _, _, _ => bad "legacynorm fields"
   | _ => bad "unknown op"
 
 end Driver.C13
